@@ -359,17 +359,19 @@ func (s *state) visitPrint(node *ast.PrintNode) {
 		}
 	}
 	if escape != ast.AutoescapeOff {
-		directives = append([]*ast.PrintDirectiveNode{{0, "escapeHtml", nil}}, directives...)
+		directives = append(directives, &ast.PrintDirectiveNode{0, "escapeHtml", nil})
 	}
 
+	// Directives apply left to right (and escaping last), so the first one is
+	// the innermost call.
 	s.indent()
 	s.js(s.bufferName, " += ")
-	for _, dir := range directives {
+	for i := range directives {
+		var dir = directives[len(directives)-1-i]
 		s.js(PrintDirectives[dir.Name].Name, "(")
 	}
 	s.walk(node.Arg)
-	for i := range directives {
-		var dir = directives[len(directives)-1-i]
+	for _, dir := range directives {
 		for _, arg := range dir.Args {
 			s.js(",")
 			s.walk(arg)
